@@ -13,7 +13,7 @@ def run(ctx):
     scratch = vlib.scratch_dir("C10")
     env = vlib.scrub_env(scratch=scratch)
     nsh = vlib.NCPU * 2
-    levels = "L1,L4,L5" if tier == "quick" else "L1,L3,L4,L5"
+    levels = "L1,L4,L5,L6" if tier == "quick" else "L1,L3,L4,L5,L6"
     deadline = ctx["deadline"] or (300 if tier == "quick" else 1800)
     args = [["--tier", tier, "--levels", levels, "--corpus", c01.corpus_arg(), "--shard", i, "--nshards", nsh] for i in range(nsh)]
     res = vlib.run_shards(exe, args, env, timeout=deadline, label="xabi")
